@@ -157,54 +157,65 @@ func runInTree(c EVMCase, deployed bool) (res *result) {
 		cfg = deployedChainConfig()
 	}
 	tr := &iTracer{c: res.tr}
-	evm := ivm.NewEVM(ctx, st, cfg, ivm.Config{EVMGasLimit: evmGasLimit, Debug: true, Tracer: tr})
-	st.Prepare(icommon.Hash{1}, icommon.Hash{2}, 0)
 	value := new(big.Int).SetBytes(c.Value)
-	if len(c.To) == 20 {
-		if p := ivm.PrecompiledContractsByzantium[icommon.BytesToAddress(c.To)]; p != nil {
-			if c.To[19] == 0xfe {
-				res.tr.gov = true
-			} else if p.RequiredGas(c.Data) > evmGasLimit {
-				res.tr.budget = true
+	for txi := 0; txi <= c.Again; txi++ {
+		var ret []byte
+		var verr error
+		res.tr.newTx()
+		evm := ivm.NewEVM(ctx, st, cfg, ivm.Config{EVMGasLimit: evmGasLimit, Debug: true, Tracer: tr})
+		thash := icommon.Hash{1, byte(txi)}
+		st.Prepare(thash, icommon.Hash{2}, txi)
+		if len(c.To) == 20 {
+			if p := ivm.PrecompiledContractsByzantium[icommon.BytesToAddress(c.To)]; p != nil {
+				if c.To[19] == 0xfe {
+					res.tr.gov = true
+				} else if p.RequiredGas(c.Data) > evmGasLimit {
+					res.tr.budget = true
+				}
 			}
 		}
-	}
-	var ret []byte
-	var verr error
-	if len(c.To) == 0 {
-		var addr icommon.Address
-		expect := icrypto.CreateAddress(sender, st.GetNonce(sender))
-		res.tr.createdAddrs = append(res.tr.createdAddrs, fmt.Sprintf("%x", expect[:]))
-		ret, addr, _, verr = evm.Create(ivm.AccountRef(sender), c.Data, topGas, value)
-		res.created = fmt.Sprintf("%x", addr[:])
-	} else {
-		st.SetNonce(sender, st.GetNonce(sender)+1)
-		ret, _, verr = evm.Call(ivm.AccountRef(sender), icommon.BytesToAddress(c.To), c.Data, topGas, value)
-	}
-	res.ret = ret
-	switch {
-	case verr == nil:
-		res.class = "success"
-	case verr.Error() == "evm: execution reverted":
-		res.class, res.errText = "revert", verr.Error()
-	default:
-		res.class, res.errText = "failure", verr.Error()
-	}
-	for _, l := range st.Logs() {
-		lr := logRec{Addr: fmt.Sprintf("%x", l.Address[:]), Data: fmt.Sprintf("%x", l.Data)}
-		for _, tp := range l.Topics {
-			lr.Topics = append(lr.Topics, fmt.Sprintf("%x", tp[:]))
+		if len(c.To) == 0 {
+			var addr icommon.Address
+			expect := icrypto.CreateAddress(sender, st.GetNonce(sender))
+			res.tr.createdAddrs = append(res.tr.createdAddrs, fmt.Sprintf("%x", expect[:]))
+			ret, addr, _, verr = evm.Create(ivm.AccountRef(sender), c.Data, topGas, value)
+			res.created = join(res.created, fmt.Sprintf("%x", addr[:]))
+		} else {
+			st.SetNonce(sender, st.GetNonce(sender)+1)
+			ret, _, verr = evm.Call(ivm.AccountRef(sender), icommon.BytesToAddress(c.To), c.Data, topGas, value)
 		}
-		res.logs = append(res.logs, lr)
-	}
-	for a := range res.tr.sdAddrs {
-		if st.HasSuicided(icommon.HexToAddress(a)) {
-			res.suicided = append(res.suicided, a)
+		if txi > 0 {
+			res.ret = append(res.ret, 0xff, byte(txi), 0xff)
+		}
+		res.ret = append(res.ret, ret...)
+		switch {
+		case verr == nil:
+			res.class = join(res.class, "success")
+		case verr.Error() == "evm: execution reverted":
+			res.class, res.errText = join(res.class, "revert"), join(res.errText, verr.Error())
+		default:
+			res.class, res.errText = join(res.class, "failure"), join(res.errText, verr.Error())
+		}
+		for _, l := range st.GetLogs(thash) {
+			lr := logRec{Addr: fmt.Sprintf("%x", l.Address[:]), Data: fmt.Sprintf("%x", l.Data)}
+			for _, tp := range l.Topics {
+				lr.Topics = append(lr.Topics, fmt.Sprintf("%x", tp[:]))
+			}
+			res.logs = append(res.logs, lr)
+		}
+		for a := range res.tr.sdAddrs {
+			if st.HasSuicided(icommon.HexToAddress(a)) {
+				res.suicided = append(res.suicided, txTag(txi)+a)
+				res.tr.destroyed[a] = true
+			}
+		}
+		// core.ApplyTransaction: statedb.Finalise(true) after every transaction ("Edit by zhongan")
+		st.Finalise(true)
+		if res.tr.aborted {
+			break
 		}
 	}
 	sort.Strings(res.suicided)
-	// core.ApplyTransaction: statedb.Finalise(true) after every transaction ("Edit by zhongan")
-	st.Finalise(true)
 	if _, err := st.Commit(true); err != nil {
 		panic(err)
 	}
